@@ -89,6 +89,41 @@ def is_pure_call(w, name, f):
     return False
 
 
+READ_ONLY_STD = ('std::iter::Iterator::', 'core::iter::', 'std::iter::', 'core::slice::<impl [T]>::iter', 'std::collections::HashMap::keys',
+                 'std::collections::HashMap::values', 'std::collections::HashMap::iter', 'std::collections::hash_map::', 'std::any::type_name',
+                 'std::slice::Iter', 'core::slice::iter::', 'std::iter::IntoIterator::into_iter', 'std::option::Option::', 'std::convert::')
+
+
+def pure_body(w, g, depth=2):
+    """g writes through no pointer and calls only side-effect-free functions (a read-only helper such as Value::is_heap_ref, or the closure
+    of a fold that only counts)"""
+    if has_pointer_store(g, g.normal_blocks()):
+        return False
+    return all(is_pure_site(w, g, b, depth - 1) for b, _ in g.calls())
+
+
+def is_pure_site(w, f, b, depth=2):
+    t = f.blocks[b]['t']
+    name = callee_name(t)
+    if is_pure_call(w, name, f):
+        return True
+    if name is None or depth < 0:
+        return False
+    sn = strip_generics(name)
+    if (sn.startswith(READ_ONLY_STD) or (sn.startswith(('core::', 'std::', 'alloc::')) and sn.endswith(('::iter', '::keys', '::values', '::chars', '::bytes')))) and 'iter_mut' not in sn and 'for_each' not in sn and 'drain' not in sn and 'values_mut' not in sn:
+        # a read-only std iterator / accessor: as pure as the closures it is given
+        fns = set()
+        for a in t['args']:
+            fns |= w._fn_values(f, a)
+        return all(pure_body(w, w.fns[x], depth) for x in fns if x in w.fns)
+    g = w.fns.get(name)
+    if g is not None and g.crate is w.yarel and g.argc <= 3:
+        # a workspace function that only reads
+        muts = any(g.crate.tstr(g.local_ty(i)).startswith('&mut') for i in range(1, g.argc + 1))
+        return not muts and pure_body(w, g, depth)
+    return False
+
+
 def classify(w, f, bi, k, tab):
     """classify one cfg!() site. returns (class, detail)"""
     feats, dbg = features_of(k['snip'])
@@ -114,7 +149,7 @@ def classify(w, f, bi, k, tab):
     calls_false = [callee_name(f.blocks[b]['t']) for b in only_false if f.blocks[b]['t']['t'] == 'call']
     # (a) trace-only
     if feats and feats <= TRACE_FEATURES and not dbg:
-        impure = [n for n in calls_true if not is_pure_call(w, n, f)]
+        impure = [callee_name(f.blocks[b]['t']) for b in sorted(only_true) if f.blocks[b]['t']['t'] == 'call' and not is_pure_site(w, f, b)]
         if not impure and not has_pointer_store(f, only_true) and not calls_false_impure(w, f, calls_false):
             return 'trace-only', 'guarded block only formats/prints (%d calls)' % len(calls_true)
         return 'unclassified', 'trace feature guards code that does more than print: %s' % impure[:3]
@@ -445,6 +480,8 @@ def v6(rep, w, rid='V6'):
         f = w.fns[p]
         if f.crate is not c or f.file.endswith('debug.rs'):
             continue
+        if f.file.endswith(('compiler.rs', 'scanner.rs', 'chunk.rs')):
+            continue      # lengths of the compiler's own tables are not chosen by the running program (reached through import only)
         org = dom = None
         for bi in sorted(f.normal_blocks()):
             for s_ in f.blocks[bi]['s']:
